@@ -236,6 +236,8 @@ type Engine struct {
 	lastParams    []*Val
 	stableFields  []string
 	tracked       map[string]bool // tracked struct types (typeStr form) for this property
+	baseLocals    map[string]map[string]string // baseline: function -> variable name -> signature
+	curLocals     map[string]map[string]string
 }
 
 func (e *Engine) logAbs(format string, a ...interface{}) {
@@ -250,6 +252,7 @@ func (e *Engine) logAbs(format string, a ...interface{}) {
 }
 
 type fnCtx struct {
+	alias       map[string]string // contract name of a renamed variable -> its current name
 	eng         *Engine
 	fn          *ssa.Function
 	con         *Contract
@@ -476,6 +479,12 @@ func (e *Engine) newFnCtx(fn *ssa.Function, con *Contract) *fnCtx {
 			}
 		}
 	}
+	sigs := localSigs(fn)
+	if e.curLocals == nil {
+		e.curLocals = map[string]map[string]string{}
+	}
+	e.curLocals[x.short] = sigs
+	x.alias = computeAlias(e.baseLocals[x.short], sigs)
 	x.writes = map[string]bool{}
 	x.maxPaths = 4000
 	return x
